@@ -52,8 +52,13 @@ def run_case(desc, ctx):
     heavy = i % 3 == 0
     kinds = None if heavy else G.CHEAP + ["XGBoost"]
     tiny = i % 5 == 3   # a grid with about as many points as the run has rows: proposals collide with the history, de-duplication works hard
+    extreme = i % 7 == 5 and not heavy   # the model returns inf / 1e300-sized values: non-finite losses and huge series cross the checkpoint
     cfg = CG.gen_config(rng, kinds=kinds, n_samplers=int(rng.integers(2, 5)) if tiny else int(rng.integers(1, 5)), max_bs=2, scheduler=str(rng.choice(["list", "rr"])),
+                        model=str(rng.choice(["inf", "huge"])) if extreme else "plain",
+                        **({"loss_kinds": ["minkowski", "msm", "fourier"]} if extreme else {}),
                         **({"max_points": 4, "max_params": 2} if tiny else {}))
+    if extreme:
+        c["models_returning_nonfinite_or_huge"] = 1
     if tiny:
         c["tiny_grid_cases"] = 1
     if heavy:
